@@ -316,7 +316,10 @@ def main():
         checks=checks,
         not_applicable=na,
         notes='Single entry point ./check <ID> --tier quick|thorough [--seed N] [--replay PATH]; exit 2 is reserved '
-              'for machinery failures. Known findings: known_findings.json. See DESIGN.md.')
+              'for machinery failures. Known findings: known_findings.json (open: F3a-c, F5a, F21/F21b/F21c, F26; fixed F1..F37 '
+              'are listed there with their fix: commits). Checks read chi from CHI_SRC (default /repo); several checks share a '
+              'cached run (DESIGN.md 0.1). Seeded changes and what catches them: seeded/, DESIGN.md 0.5; tools/regress_seeded.py '
+              're-applies all of them. See DESIGN.md section 0 first.')
     path = os.path.join(HERE, 'MANIFEST.json')
     with open(path, 'w') as f:
         json.dump(man, f, indent=1)
